@@ -178,6 +178,13 @@ class LineRunner:
                 self.spec_checked += 1
             if "spec=REJECTED" in mo:
                 self.mismatch.append((c, io, mo, "the model verifier rejects the model prover's proof"))
+            # implementation-only measurement: peak allocation of the request
+            if " peak=" in io:
+                pk = int(io.split(" peak=")[1].split(" ")[0])
+                io = io.split(" peak=")[0]
+                bound = c.get("peak_bound")
+                if bound is not None and pk > bound:
+                    self.impl_fail.append((c, io, "peak allocation %d exceeds the bound %d" % (pk, bound)))
             # implementation-only route flags (own verifier / compressed route / serialized route)
             flags = dict(t.split("=", 1) for t in io.split(" ") if t.split("=", 1)[0] in ("own", "cmp", "ser") and "=" in t)
             if flags:
